@@ -23,7 +23,9 @@ fn('dsplib::fft', F, sig='(const dsplib::arr_real &)', key='fft(arr_real)', serv
    requires=[('nonempty', 'x.len >= 1')], ensures=[('length', 'result.len == x.len')], notes=N)
 fn('dsplib::ifft', 'lib/fft/ifft.cpp', sig='(const dsplib::arr_cmplx &)', key='ifft(arr_cmplx)', serves=['C02'], trusted=True, pure=True,
    requires=[('nonempty', 'x.len >= 1')], ensures=[('length', 'result.len == x.len'), ZERO], notes=N)
-fn('dsplib::FftPlan::FftPlan', F, serves=['C01'], trusted=True, assigns=['this'], requires=[('size', 'n >= 1')], notes=N)
+from contracts.plancache import PLAN_SIZE as _PS, handle as _handle
+fn('dsplib::FftPlan::FftPlan', F, serves=['C01'], trusted=True, assigns=['this'], requires=[('size', 'n >= 1')],
+   extra_env={'PLAN_SIZE': _PS, 'handle': _handle}, ensures=[('size', 'PLAN_SIZE(handle(_d)) == n')], notes=N + '; the plan it wraps reports size n')
 fn('dsplib::FftPlanR::FftPlanR', F, serves=['C01'], trusted=True, assigns=['this'], requires=[('size', 'n >= 1')], notes=N)
 for cls in ('FftPlan', 'FftPlanR'):
     for m in ('operator()', 'solve'):
